@@ -500,7 +500,7 @@ def oracle(inp):
 def _oracle(inp):
     if inp[0] == 0:
         return property_failure(inp[2])
-    if inp[0] == 1:
+    if inp[0] in (1, 4):
         return blocking_failure(inp)
     if inp[0] == 3:
         return _oracle([2, 2, None, inp[4]])
@@ -541,6 +541,8 @@ def run_impl(inp):
         return replay(inp[2])
     if inp[0] == 1:
         return run_blocking(inp[1], inp[2], inp[3], inp[4])
+    if inp[0] == 4:
+        return run_blocking(inp[1], inp[2], inp[3], inp[4], buffered=True)
     if inp[0] == 3:
         key = "e" + repr(runner_norm(inp[4]))
         if key in _cache:
@@ -689,6 +691,8 @@ def cases(tier, rng, escalate):
     for inp, origin in _blocking_cases(thorough, rng):
         has_timeout = any(e[0] == 2 for e in inp[4]) or any(inp[3])
         yield dict(input=inp, tags=["blocking", origin] + (["timeout-event"] if has_timeout else []), nontrivial=has_timeout)
+        yield dict(input=[4] + inp[1:], tags=["blocking-buffered", origin] + (["timeout-event"] if has_timeout else []),
+                   nontrivial=has_timeout)
 
 
 # =====================================================================================================================
@@ -1285,12 +1289,12 @@ class _OracleExhausted(Exception):
     pass
 
 
-def run_blocking(size, bufsize, calls, events):
+def run_blocking(size, bufsize, calls, events, buffered=False):
     import time as _time
     from common import streamcase as sc
     from easynetwork.lowlevel.api_sync.endpoints.stream import StreamReceiverEndpoint
     from easynetwork.lowlevel.api_sync.transports.abc import StreamReadTransport
-    from easynetwork.protocol import StreamProtocol
+    from easynetwork.protocol import BufferedStreamProtocol, StreamProtocol
 
     clock = [1000.0]
     script = collections.deque(events)
@@ -1311,9 +1315,13 @@ def run_blocking(size, bufsize, calls, events):
             return {}
 
         def recv_into(self, buffer, timeout):
-            data = self.recv(memoryview(buffer).nbytes, timeout)
-            memoryview(buffer)[:len(data)] = data
-            return len(data)
+            with memoryview(buffer) as view:
+                try:
+                    data = self.recv(view.nbytes, timeout)
+                except AssertionError:
+                    raise _OracleExhausted() from None      # the scripted chunk does not fit the view: meaningless script
+                view[:len(data)] = data
+                return len(data)
 
         def recv(self, bufsize_, timeout):
             if not script:
@@ -1333,7 +1341,8 @@ def run_blocking(size, bufsize, calls, events):
     saved = _time.perf_counter
     _time.perf_counter = lambda: clock[0]
     try:
-        ep = StreamReceiverEndpoint(Scripted(), StreamProtocol(sc.IdFixed(size)), max_recv_size=bufsize)
+        proto = BufferedStreamProtocol(sc.IdFixed(size)) if buffered else StreamProtocol(sc.IdFixed(size))
+        ep = StreamReceiverEndpoint(Scripted(), proto, max_recv_size=bufsize)
         results = []
         for tz in calls:
             try:
@@ -1396,7 +1405,7 @@ def blocking_failure(inp):
     """The blocking half of the property on the implementation: packets come out in stream order, none lost, whatever
     the TimeoutErrors in between."""
     _, size, bufsize, calls, events = inp[:5]
-    results = run_blocking(size, bufsize, calls, events)
+    results = run_blocking(size, bufsize, calls, events, buffered=(inp[0] == 4))
     consumed = b"".join(e[1] for e in events if e[0] == 0)
     got = b"".join(r[1] for r in results if r[0] == 0)
     if not consumed.startswith(got):
